@@ -210,6 +210,7 @@ func (s *tcpServer) run(database, body string) tcpResult {
 		s.boot = append(s.boot, q)
 		return tcpResult{name: "statement", rows: []string{"CREATE DATABASE " + m[1] + " ENGINE = Atomic"}}
 	}
+	f.use(dbKey(database))
 	fail := func(err error) tcpResult { return tcpResult{exc: "fake clickhouse: " + err.Error()} }
 	if m := reGetB.FindStringSubmatch(body); m != nil {
 		fp, _ := strconv.ParseUint(m[2], 10, 32)
